@@ -286,6 +286,19 @@ def r4(ctx) -> None:
             msg = "wavelength explicit: header row = spectral values; each data row = time followed by the observations of that time over the spectral axis"
         ctx.ob("C17-R4", f"write/{fmt}-explicit-layout", ok, wr, rd[0] if rd else wr.node, msg)
     ctx.ob("C17-R4", "write/both-formats", set(blocks) == {"time", "wavelength"}, wr, wr.node, "both explicit formats are written", construct=str(sorted(blocks)))
+    # the header row is text the reader parses as numbers: it must be rendered from python floats / a numeric format
+    for fmt, body in sorted(blocks.items()):
+        hd = [s for s in body if isinstance(s, ast.Assign) and norm(s.targets[0]) in ("wav", "tim")]
+        ok = False
+        if hd and isinstance(hd[0].value, ast.Call) and isinstance(hd[0].value.args[0], ast.GeneratorExp):
+            elt = hd[0].value.args[0].elt
+            var = norm(hd[0].value.args[0].generators[0].target)
+            t_ = norm(elt).replace(" ", "")
+            ok = t_ in (f"repr(float({var}))", f"str(float({var}))", f"number_format%{var}", f"'%r'%float({var})") or (
+                isinstance(elt, ast.JoinedStr) and any(isinstance(v, ast.FormattedValue) and v.format_spec is not None for v in elt.values))
+        ctx.ob("C17-R4", f"write/{fmt}-explicit-axis-as-numbers", ok, wr, hd[0] if hd else wr.node,
+               "axis values in the header are rendered from python floats (or with a numeric format); repr() of a numpy scalar is "
+               "'np.float64(0.1)' under numpy 2 and comes back as a string")
     rdf = ctx.fn(ASC, "ExplicitFile.read")
     txt = norm(rdf.node)
     ok_t = "self._times = explicit_axis" in txt and "self._spectral_indices = secondary_axis" in txt
